@@ -60,9 +60,10 @@ fn random(a: &Args) {
     let mut nev = 0usize;
     let mut samples = Vec::new();
     let funnel: usize = a.num("funnel", 0);
-    for k in 0..count + funnel {
+    let chain: usize = a.num("chain", 0);
+    for k in 0..count + funnel + chain {
         if k >= count {
-            let prog = shredh::prog::gen_funnel(&mut rng);
+            let prog = if k >= count + funnel { shredh::prog::gen_chain(&mut rng) } else { shredh::prog::gen_funnel(&mut rng) };
             let mut res = Vec::new();
             prog.resources(&mut res);
             let r = record_registration(&prog, Variant::identity(&res), k + 1, 0, false);
@@ -99,7 +100,7 @@ fn random(a: &Args) {
     w.flush().unwrap();
     println!(
         "{}",
-        json!({"programs":count + funnel,"variants":variants,"systems":nsys,"events":nev,"samples":samples})
+        json!({"programs":count + funnel + chain,"variants":variants,"systems":nsys,"events":nev,"samples":samples})
     );
 }
 
